@@ -140,3 +140,42 @@ def stored_back_over_list(fn, assign, loop):
     returned = {n.id for r in ast.walk(fn) if isinstance(r, ast.Return) and r.value is not None for n in ast.walk(r.value)
                 if isinstance(n, ast.Name)}
     return base.id in params or base.id in returned
+
+
+def effects_obligation(prop):
+    """cross-cutting obligation E10 (sa/effects.py): no hidden state, caller-owned inputs left alone, on the property's functions"""
+    from sa import effects
+    from sa.report import Obligation
+    from .effects_entries import ENTRIES
+    from . import effects_baseline
+
+    def run(ctx):
+        entries = ENTRIES[prop]
+        present = [q for q in entries if ctx.prog.has(q)]
+        top = [q for q in entries if q.count(".") <= 2]
+        missing_top = [q for q in top if not ctx.prog.has(q)]
+        if missing_top:
+            raise AnchorMissing(f"entry function(s) of the effect analysis not found: {missing_top[:3]}")
+        rep = effects.analyse(ctx.prog, present)
+        ctx.touched(*present)
+        seen = set()
+        n_base = 0
+        for it in rep.items:
+            k = (it["kind"], it["fn"], it["root"], it["src"], it["op"])
+            if k in seen:
+                continue
+            seen.add(k)
+            if effects_baseline.match(it):
+                n_base += 1
+                continue
+            ctx.finding(it["fn"], f"{it['kind']} {it['root']} <- {it['src']} [{it['op']}]", it["message"], it["node"], it["module"],
+                        rule=it["kind"], root=it["root"], written_in=it["src"], write=it["op"])
+        ctx.count(len(rep.closure), {"functions in the call closure": len(rep.closure), "in-place writes / returns / state reads examined": rep.sites,
+                                     "writes to caller-owned objects confirmed harmless (baseline)": n_base,
+                                     "entries": len(present)})
+        if rep.undecided and not ctx.cur.findings:
+            it = rep.undecided[0]
+            raise Unsupported(f"{it['kind']} in {it['fn']}: {it['message']}", it["node"])
+
+    return Obligation("OX.E", "history independence: no module/class-level state, caches or mutable defaults behind the property's functions; "
+                              "arguments owned by the caller are not modified (E10)", run, floor=1)
